@@ -26,7 +26,7 @@ from elementpath.datatypes import AnyAtomicType, AbstractDateTime, AnyURI, \
     DayTimeDuration, Date, DateTime, DecimalProxy, Duration, QName, \
     Timezone, UntypedAtomic, AbstractQName
 from elementpath.tdop import Token, MultiLabel
-from elementpath.helpers import ordinal, get_double
+from elementpath.helpers import ordinal, get_double, Patterns
 from elementpath.xpath_context import XPathContext, XPathSchemaContext
 from elementpath.xpath_nodes import XPathNode, NamespaceNode, DocumentNode, ElementNode
 from elementpath.sequences import xlist
@@ -955,10 +955,14 @@ class XPathToken(Token[ta.XPathTokenType]):
         try:
             if isinstance(obj, XPathNode):
                 if self.parser.version == '1.0':
-                    return get_double(obj.compat_string_value, self.parser.xsd_version)
-                return get_double(obj.string_value, self.parser.xsd_version)
-            else:
-                return get_double(obj, self.parser.xsd_version)
+                    obj = obj.compat_string_value
+                else:
+                    return get_double(obj.string_value, self.parser.xsd_version)
+
+            if self.parser.version == '1.0' and isinstance(obj, str) and \
+                    Patterns.xpath1_number.match(obj) is None:
+                return math.nan  # XPath 1.0 Number: no exponent, no plus sign, no INF
+            return get_double(obj, self.parser.xsd_version)
         except (TypeError, ValueError):
             return math.nan
 
